@@ -581,6 +581,8 @@ def run(index: RepoIndex, rep) -> None:
         vnode = _opacity_tables_to_cells(inlined_function(index, vf)[0],
                                          vf.node.args.args[0].arg)
         _narrow_counters(rep, vnode, vn, 'C19.R7')
+        from .c06 import _sized_counters
+        _sized_counters(index, rep, vf, 'C19.R7')
         rep.holds('C19.R7', f'gym_gridverse/envs/visibility_functions.py:{vn}',
                   'incremented arrays scanned for narrow element types')
     rep.rule('C19.R5', 'ray samples keep the row and the column coordinate apart (axis typing, E14)', floor=1)
